@@ -82,6 +82,7 @@ func init() {
 	reg(vr+"Byte", func(ex *Exec, fn *ssa.Function, args []Value) Value {
 		name := ex.drawName(ex.concreteStrArg(args[0], "tag"))
 		v := ex.tc.Var(name, 8)
+		ex.tc.ClearDomain(v)
 		ex.draws = append(ex.draws, Draw{Tag: name, Kind: "uint", Vars: []*Term{v}, Width: 8})
 		return v
 	})
@@ -90,6 +91,9 @@ func init() {
 		tc := ex.tc
 		lo, hi := args[1].(*Term), args[2].(*Term)
 		v := tc.Var(name, 8)
+		// the term context outlives a path: build the constraint without a domain recorded by an earlier path,
+		// otherwise it folds to true and the solver never sees it
+		tc.ClearDomain(v)
 		ex.assume(tc.And(tc.Ule(lo, v), tc.Ule(v, hi)))
 		if lo.IsConst() && hi.IsConst() {
 			var dom [4]uint64
@@ -121,6 +125,7 @@ func init() {
 			}
 		}
 		for _, b := range s.sym.b {
+			tc.ClearDomain(b) // see Byte2
 			ok := tc.False
 			for _, r := range byteRanges(alpha) {
 				if r[0] == r[1] {
